@@ -149,6 +149,134 @@ fn scenario<C: MlsConfig>(rng: &mut Rng, mk: &dyn Fn(&Setup, &Handles, mls_rs::i
     let _ = std::fs::remove_dir_all("/tmp/vharness-scratch-c10");
 }
 
+
+/// GroupContextExtensions by reference next to an Add, with clients that support different extension types: the committer
+/// drops a GCE proposal that some member does not support and must then judge the other proposals under the extensions that
+/// stay in force (and under the new ones when the GCE is kept).
+fn gce_scenario(rng: &mut Rng, out: &mut Out) {
+    use mls_rs::extension::built_in::RequiredCapabilitiesExt;
+    use mls_rs::identity::basic::BasicIdentityProvider;
+    use mls_rs::extension::ExtensionType;
+    use mls_rs::{CipherSuite, Client};
+    let client = |name: &str, exts: &[u16]| {
+        let (id, sk) = make_identity(name, 1);
+        Client::builder()
+            .crypto_provider(RustCryptoProvider::default())
+            .identity_provider(BasicIdentityProvider::new())
+            .extension_types(exts.iter().map(|e| ExtensionType::from(*e)).collect::<Vec<_>>())
+            .signing_identity(id, sk, CipherSuite::from(1u16))
+            .build()
+    };
+    let required = |exts: &[u16]| {
+        let mut l = ExtensionList::new();
+        if !exts.is_empty() {
+            l.set_from(RequiredCapabilitiesExt::new(exts.iter().map(|e| ExtensionType::from(*e)).collect(), vec![], vec![])).unwrap();
+        }
+        l
+    };
+    let n = rng.range(2, 4) as usize;
+    let member_exts: &[u16] = &[42];
+    let clients: Vec<_> = (0..n).map(|i| client(&format!("g{i}"), member_exts)).collect();
+    let Ok(mut g0) = clients[0].create_group(required(&[42]), Default::default(), None) else {
+        out.fails.push("gce: create_group".into());
+        return;
+    };
+    let mut groups = vec![];
+    if n > 1 {
+        let mut b = g0.commit_builder();
+        for c in clients.iter().skip(1) {
+            b = b.add_member(c.generate_key_package_message(Default::default(), Default::default(), None).unwrap()).unwrap();
+        }
+        let o = b.build().unwrap();
+        g0.apply_pending_commit().unwrap();
+        for c in clients.iter().skip(1) {
+            let mut joined = None;
+            for w in &o.welcome_messages {
+                if let Ok((g, _)) = c.join_group(None, w, None) {
+                    joined = Some(g);
+                    break;
+                }
+            }
+            let Some(g) = joined else {
+                out.fails.push("gce: setup join".into());
+                return;
+            };
+            groups.push(g);
+        }
+    }
+    groups.insert(0, g0);
+    // the proposed new requirement and the newcomer's support
+    let new_req: Vec<u16> = match rng.below(4) {
+        0 => vec![43],
+        1 => vec![42, 43],
+        2 => vec![],
+        _ => vec![42],
+    };
+    let newcomer_exts: Vec<u16> = match rng.below(4) {
+        0 => vec![43],
+        1 => vec![42, 43],
+        2 => vec![42],
+        _ => vec![],
+    };
+    let newcomer = client("newcomer", &newcomer_exts);
+    let proposer = rng.below(n as u64) as usize;
+    let committer = rng.below(n as u64) as usize;
+    let Ok(gce) = groups[proposer].propose_group_context_extensions(required(&new_req), vec![]) else {
+        out.fails.push("gce: propose_group_context_extensions".into());
+        return;
+    };
+    let kp = newcomer.generate_key_package_message(Default::default(), Default::default(), None).unwrap();
+    let add = groups[proposer].propose_add(kp, vec![]);
+    let mut props = vec![gce];
+    if let Ok(a) = add {
+        props.push(a);
+    }
+    let n_props = props.len();
+    for (i, g) in groups.iter_mut().enumerate() {
+        if i != proposer {
+            for p in &props {
+                let _ = g.process_incoming_message(p.clone());
+            }
+        }
+    }
+    out.cases += 1;
+    let gce_ok = new_req.iter().all(|e| member_exts.contains(e));
+    let in_force: &[u16] = if gce_ok { &new_req } else { &[42] };
+    let add_ok = n_props == 2 && in_force.iter().all(|e| newcomer_exts.contains(e));
+    // a newcomer that itself lacks a newly required extension makes the GCE unsupported in the new tree
+    let gce_ok = gce_ok && (!add_ok || new_req.iter().all(|e| newcomer_exts.contains(e)));
+    let expect_unused = (!gce_ok) as usize + (n_props == 2 && !add_ok) as usize;
+    let tag = format!("gce: members support [42], proposed requirement {new_req:?}, newcomer supports {newcomer_exts:?}");
+    let r = std::panic::catch_unwind(std::panic::AssertUnwindSafe(|| groups[committer].commit(vec![])));
+    match r {
+        Err(_) => out.fails.push(format!("{tag}: committer panics")),
+        Ok(Err(e)) => out.fails.push(format!("{tag}: committer cannot commit by-reference proposals: {}", err_class(&e))),
+        Ok(Ok(o)) => {
+            if o.unused_proposals.len() != expect_unused {
+                out.fails.push(format!("{tag}: {} proposals reported unused, expected {expect_unused}", o.unused_proposals.len()));
+            }
+            let _ = groups[committer].apply_pending_commit();
+            let cm = o.commit_message.clone();
+            for (i, g) in groups.iter_mut().enumerate() {
+                if i != committer {
+                    if let Err(e) = g.process_incoming_message(cm.clone()) {
+                        out.fails.push(format!("{tag}: member {i} rejects the commit the committer built: {}", err_class(&e)));
+                    }
+                }
+            }
+            if add_ok {
+                let joined = o.welcome_messages.iter().any(|w| newcomer.join_group(None, w, None).is_ok());
+                if !joined {
+                    out.fails.push(format!("{tag}: the added newcomer cannot join"));
+                }
+            } else if !o.welcome_messages.is_empty() {
+                out.fails.push(format!("{tag}: a newcomer that does not meet the requirements in force was added"));
+            }
+            out.cover.insert(format!("gce:kept={}:add_kept={}", gce_ok as u8, add_ok as u8));
+        }
+    }
+}
+
 pub fn run(o: &Opts) -> i32 {
     crate::util::quiet_panics();
     let dir = o.str("out", "/verif/work/c10");
@@ -160,6 +288,8 @@ pub fn run(o: &Opts) -> i32 {
     for _ in 0..n {
         let mut r = rng.fork();
         scenario(&mut r, &mk, &mut out);
+        gce_scenario(&mut r, &mut out);
+        gce_scenario(&mut r, &mut out);
     }
     println!("cases {}", out.cases);
     println!("cover {}", out.cover.iter().cloned().collect::<Vec<_>>().join(";"));
